@@ -15,6 +15,7 @@ use crate::collection::LiftableCombiner;
 use crate::node::Node;
 use crate::{CombineFn, PCollection, Partition, RFBound};
 use std::collections::HashMap;
+use std::collections::hash_map::Entry;
 use std::hash::Hash;
 use std::marker::PhantomData;
 use std::sync::Arc;
@@ -217,7 +218,13 @@ where
                 let mut map: HashMap<K, A> = HashMap::new();
                 for (k, vs) in kvv {
                     let acc = comb.build_from_group(&vs);
-                    map.insert(k, acc);
+                    // The same key may appear in more than one group: merge, do not overwrite.
+                    match map.entry(k) {
+                        Entry::Occupied(mut e) => comb.merge(e.get_mut(), acc),
+                        Entry::Vacant(e) => {
+                            e.insert(acc);
+                        }
+                    }
                 }
                 Box::new(map) as Partition
             })
